@@ -62,6 +62,9 @@ type c10Op struct {
 	GasUsed  string   `json:"gas_used"`
 	GasPrice string   `json:"gas_price"`
 	To       string   `json:"to"` // "" = contract creation
+	// synthetic creation receipts: receipt.ContractAddress, which ethermint fills in for every creation (the address
+	// derived from sender and nonce, whatever ended up there); "" = left zero
+	Created string `json:"created,omitempty"`
 	// instead of a synthetic receipt: a real signed transaction through EvmKeeper.EthereumTx
 	Real *c10Real `json:"real,omitempty"`
 }
@@ -602,6 +605,10 @@ func (lv *c10Live) exec(e *Env, c int, op c10Op) bool {
 	gasUsed := bigOf(op.GasUsed)
 	gasPrice := bigOf(op.GasPrice)
 	receipt := &ethtypes.Receipt{Logs: logs, GasUsed: gasUsed.Uint64()}
+	if to == nil && op.Created != "" {
+		receipt.ContractAddress = common.HexToAddress(op.Created)
+		lv.universe = append(lv.universe, receipt.ContractAddress)
+	}
 	msg := ethtypes.NewMessage(f.pool[7], to, 0, big.NewInt(0), 0, gasPrice, big.NewInt(0), big.NewInt(0), nil, ethtypes.AccessList{}, true)
 	err := Try(lv.ctx, func(cc sdk.Context) error { return f.a.CSRKeeper.Hooks().PostTxProcessing(cc, msg, receipt) })
 	e.Stats.Evaluations++
@@ -850,7 +857,7 @@ func c10GenOp(e *Env, lv *c10Live, hugeOK bool) c10Op {
 
 func runC10(e *Env) {
 	e.Header("From Coq Require Import ZArith List.\nFrom Canto Require Import Model.Csr Check.Common Check.CsrCheck.\nImport ListNotations.\nOpen Scope Z_scope.\n")
-	e.Stats.Rule = "case = csr genesis with 0-4 NFTs over a pool of 8 contracts + a history of post-tx hook calls on the real csr keeper (real bank, real EVM, the Turnstile deployed by the module's BeginBlock): share in {0, 1ulp, 0.2, 1/3, small, random, 1-1ulp, 1} changed during the history, gas used in {0, 1, typical, 2^64-1, random}, gas price in {0, 1, random up to 2^190, rounding boundaries of fee*share, the 315-bit limit of LegacyDec.Mul}, target registered / unregistered / creation / registering itself in the same receipt, fee collector funded generously / exactly / one short; plus cases of real signed EVM transactions through EvmKeeper.EthereumTx (legacy gas price 1 .. 2^70: CSRSmartContract.register / assign against the real Turnstile, calls of registered and unregistered contracts, plain transfers, contract creations); non-trivial = a call that moves money; distinct by hash of (share, fee, target class, result) sequence"
+	e.Stats.Rule = "case = csr genesis with 0-4 NFTs over a pool of 8 contracts + a history of post-tx hook calls on the real csr keeper (real bank, real EVM, the Turnstile deployed by the module's BeginBlock): share in {0, 1ulp, 0.2, 1/3, small, random, 1-1ulp, 1} changed during the history, gas used in {0, 1, typical, 2^64-1, random}, gas price in {0, 1, random up to 2^190, rounding boundaries of fee*share, the 315-bit limit of LegacyDec.Mul}, target registered / unregistered / creation / registering itself in the same receipt, fee collector funded generously / exactly / one short; plus cases of real signed EVM transactions through EvmKeeper.EthereumTx (legacy gas price 1 .. 2^70: CSRSmartContract.register / assign against the real Turnstile, calls of registered and unregistered contracts, plain transfers, contract creations incl. constructors that register the contract being created with the Turnstile and leave a one-byte runtime / no code at all; the holds-code oracle of a creation is taken at hook time); non-trivial = a call that moves money; distinct by hash of (share, fee, target class, result) sequence"
 	e.ShardSize = 10 // ~25 steps per case: small shards keep the parallel Coq evaluation short
 	f := c10Setup()
 	n := e.Scale(50, 1500)
